@@ -263,13 +263,12 @@ theorem par_spec_rank (n B : Nat) (rank : Nat → Nat) :
         intro u q hu huq
         exact compress_fwd hi1 hv hvr1 hvs1 u q hu (hpres u q hu huq)
 
-/-- the form used everywhere: fuel `≥ n` is enough -/
+/-- the form used everywhere: `log2 n + 1` frames are enough -/
 theorem par_ok {s : S} {n : Nat} {rank : Nat → Nat} (hi : InvR s n rank) {v : Nat} (hv : v < n)
-    {fuel : Nat} (hf : n ≤ fuel) :
+    {fuel : Nat} (hf : Nat.log2 n < fuel) :
     ∃ s' r, par fuel s v = .ok (s', r) ∧ Reach s.p v r ∧ InvR s' n rank ∧ s'.sz = s.sz ∧
       (∀ u q, u < n → Reach s.p u q → Reach s'.p u q) := by
   have hB : ∀ u, u < n → rank u ≤ Nat.log2 n := fun u hu => (hi.root_exists u hu).2
-  have := log2_lt_self (n := n) (by omega)
   exact par_spec_rank n (Nat.log2 n) rank fuel s v hi hv hB (by omega)
 
 end Rlib.Dsu
